@@ -119,6 +119,80 @@ def rule_null(chk, prog, tier, exe):
     r.exhaustive = True
 
 
+def rule_recursion(chk, prog, tier):
+    r = chk.rule('C19.p', 'recursion whose depth follows the nesting (or length) of the input is limited: every cycle of the call graph passes through a function that counts the depth and diagnoses a limit, or is bounded by construction '
+                 '(listed with the reason); otherwise a deep enough input ends the compiler with a stack overflow (a signal) instead of a diagnostic', floor=8)
+    # recursion bounded by construction, confirmed by reading: (caller, callee) edges that cannot repeat
+    BOUNDED = {
+        ('convert', 'convert'): 'a source narrower than int is first converted to int: one extra level',
+        ('mkbinaryexpr', 'mkbinaryexpr'): 'the inner calls build the scaled operand of pointer arithmetic (TMUL / TSUB on integer operands), arms that do not recurse',
+        ('mkunaryexpr', 'decay'): 'indirection decays its result once; decay only applies & (an arm that does not call decay)',
+        ('decay', 'mkunaryexpr'): 'see mkunaryexpr -> decay',
+        ('casesearch', 'casesearch'): 'descends a balanced tree of case labels: depth <= MAXH',
+        ('binaryexpr', 'binaryexpr'): 'recurses only for an operator of higher precedence: at most one level per precedence class (10)',
+    }
+    ANCHOR = {'unaryexpr': 'declaration and expression parser', 'stmt': 'statement parser', 'funcexpr': 'lowering of expression trees', 'eval': 'constant evaluation of expression trees', 'expand': 'macro expansion'}
+    G = {}
+    fns = {fn['name']: fn for fn in prog.all_funcs()}
+    for name, fn in fns.items():
+        G.setdefault(name, set())
+        for c in [x for x in walk(fn) if x.get('kind') == 'CallExpr']:
+            f = callee_name(c)
+            if f in fns and (name, f) not in BOUNDED: G[name].add(f)
+    for (a, b) in BOUNDED:
+        if a not in fns or b not in fns: raise AnalysisBroken('bounded-recursion table names %s -> %s, which no longer exists' % (a, b))
+    def guarded(fn):
+        """the function counts its own nesting in a static/global integer and diagnoses a limit"""
+        incs = set()
+        for n in walk(fn):
+            if n.get('kind') == 'UnaryOperator' and n.get('opcode') in ('++',):
+                d = unwrap(n['inner'][0])
+                if d.get('kind') == 'DeclRefExpr' and d['referencedDecl'].get('kind') == 'VarDecl': incs.add(d['referencedDecl']['id'])
+        if not incs: return False
+        for n in walk(fn):
+            if n.get('kind') == 'IfStmt':
+                cond, then = n['inner'][0], n['inner'][1]
+                refs = {x['referencedDecl']['id'] for x in walk(cond) if x.get('kind') == 'DeclRefExpr' and x.get('referencedDecl', {}).get('kind') == 'VarDecl'}
+                if refs & incs and any(x.get('kind') == 'CallExpr' and callee_name(x) in ('error', 'fatal') for x in walk(then)):
+                    return True
+        return False
+    GUARDED = {n for n, fn in fns.items() if guarded(fn)}
+    def sccs(nodes):
+        idx = {}; low = {}; st = []; on = set(); out = []; cnt = [0]
+        import sys as _s
+        _s.setrecursionlimit(10000)
+        def sc(v):
+            idx[v] = low[v] = cnt[0]; cnt[0] += 1; st.append(v); on.add(v)
+            for w_ in G[v]:
+                if w_ not in nodes: continue
+                if w_ not in idx: sc(w_); low[v] = min(low[v], low[w_])
+                elif w_ in on: low[v] = min(low[v], idx[w_])
+            if low[v] == idx[v]:
+                comp = []
+                while True:
+                    w_ = st.pop(); on.discard(w_); comp.append(w_)
+                    if w_ == v: break
+                out.append(comp)
+        for v in nodes:
+            if v not in idx: sc(v)
+        return [c for c in out if len(c) > 1 or c[0] in G[c[0]]]
+    allnodes = set(G)
+    rec = sccs(allnodes)
+    if len(rec) < 5: raise AnalysisBroken('only %d recursive components found in the call graph' % len(rec))
+    for comp in sorted(rec, key=lambda c: sorted(c)):
+        anchor = next((a for a in ANCHOR if a in comp), None)
+        key = 'recursion:%s' % (ANCHOR[anchor] if anchor else 'function ' + sorted(comp)[0])
+        # a limit in some members bounds the component iff what remains without them has no cycle
+        rest = sccs(set(comp) - GUARDED)
+        ok = not rest
+        members = ', '.join(sorted(comp)[:8]) + (' ... (%d functions)' % len(comp) if len(comp) > 8 else '')
+        r.instance(ok, key, '%s:%s' % (fns[sorted(comp)[0]].get('_file'), fns[sorted(comp)[0]].get('line')),
+                   'the functions {%s} call each other to a depth that follows the input, and no function on the cycle %s counts the depth and diagnoses a limit' % (members, ', '.join(sorted(rest[0])[:6]) if rest else ''))
+    r.note('bounded by construction (not counted): %s' % '; '.join('%s -> %s: %s' % (a, b, why) for (a, b), why in BOUNDED.items()))
+    r.note('functions recognised as depth-limited: %s' % (sorted(GUARDED) or 'none'))
+    r.exhaustive = True
+
+
 def rule_release(chk, prog, tier):
     r = chk.rule('C19.e', 'no variable is read after it was handed to a releasing function (free, fclose and the wrappers derived from them) until it is reassigned', floor=8)
     R = flow.ReleaseUse(prog)
@@ -677,6 +751,7 @@ def run(chk, tier):
     chk.guard('C19.a', lambda: rule_eof(chk, prog, tier))
     chk.guard('C19.c', lambda: rule_bounds(chk, prog, tier))
     chk.guard('C19.d', lambda: rule_null(chk, prog, tier, 'cproc-qbe'))
+    chk.guard('C19.p', lambda: rule_recursion(chk, prog, tier))
     chk.guard('C19.e', lambda: rule_release(chk, prog, tier))
     chk.guard('C19.f', lambda: rule_exit(chk, prog, tier))
     chk.guard('C19.g', lambda: rule_flush(chk, prog, tier))
